@@ -4,7 +4,8 @@ detection and terminating recursion on (-fn, -target); R3 bounded loop; R4 wirin
 R5 the European price is increasing in volatility.
 Added after the seeded-defect rounds: R1 also: no extra exit of the search loop except an exact hit; R4 also: the direction of the pricer in the volatility is a live decision on the implied-volatility path.
 Third round: R4 also: a module created from a derivative resolves in implied_volatility() what price() resolves; R8 the inverted function and the bracket are computed in the dtype of the inputs.
-Rounds 4-5: R8 also: find_implied_volatility hands bisect a bracket in the dtype of the price."""
+Rounds 4-5: R8 also: find_implied_volatility hands bisect a bracket in the dtype of the price.
+Round 7: R1-R3 independent of the form of the search (decisions classified by what they compare; recursion or the same loop on the mirror image; while or for/break over a generator of brackets bounded by islice); R4 judges the search that is actually run: exit test against the caller's precision, bracket from the caller's bounds, budget = the caller's max_iter."""
 import ast
 
 import sympy as sp
